@@ -35,6 +35,21 @@ def toByte (x : Int) : UInt8 := UInt8.ofNat (x.emod 256).toNat
 /-- `int(b)` for a byte -/
 def ofByte (b : UInt8) : Int := Int.ofNat b.toNat
 
+/-- `xs[i]` for a `[]string` (total form: out of range reads "") -/
+def idxS (xs : List Bytes) (i : Int) : Bytes := if i < 0 then [] else xs.getD i.toNat []
+
+/-- `binary.BigEndian.Uint32(b)` as a value (total form: missing bytes read 0; Go panics when `len(b) < 4`) -/
+def beUint32 (b : Bytes) : Int :=
+  Int.ofNat ((((idx b 0).toNat * 256 + (idx b 1).toNat) * 256 + (idx b 2).toNat) * 256 + (idx b 3).toNat)
+
+/-- result of a FRAGMENT (statement range of a function): either one of the `return` statements inside the range
+    was executed (`ret n`: the n-th `return` of the range in source order, counted from 0; the returned VALUES
+    are not modelled), or control reached the end of the range with the listed output variables holding `a`. -/
+inductive Frag (α : Type) where
+  | ret (n : Nat)
+  | done (a : α)
+  deriving DecidableEq
+
 /-- what one execution of a loop body does -/
 inductive Ctl (ρ σ : Type) where
   | next (s : σ)   -- fell off the end of the body, or `continue`
